@@ -33,6 +33,8 @@ func runC33(c *Ctx) {
 	r.Rule("C33.R1", "layout: Ogg page header (OggS@0, version@4, type@5, granule@6/64, serial@14/32, sequence@18/32, crc@22/32, segment count@26, table@27, little-endian), OpusHead (magic@0/8, version@8, channels@9, pre-skip@10/16, rate@12/32, gain@16/16, family@18, streams@19, coupled@20, mapping@21) and OpusTags (magic@0/8, vendor length@8/32, then vendor, comment count, per comment length + name=value) are stored by oggwriter and decoded by oggreader at the same offset/width/byte order from/to the matching fields; header lengths (27, 19, 21+channels) agree", 25)
 	r.Rule("C33.R2", "CRC structure: same polynomial and table construction on both sides; same update step; the writer computes the checksum over the whole page after all other bytes are written and while the checksum field is still zero, and stores it afterwards; the reader substitutes zero for exactly the bytes of the checksum field and compares with the field decoded at the same offset", 7)
 	r.Rule("C33.R3", "the segment count byte and every lacing value fit a byte: the segment table is only grown inside a loop guarded by len(table) < 255 and every lacing value is 255 or a remainder below 255", 3)
+	r.Rule("C33.R5", "granule arithmetic: opusSamplesPerFrame equals RFC 6716 Table 2 for all 256 TOC bytes; opusPacketFrameCount equals RFC 6716 section 3.2 for every (TOC, length, count byte); the per-packet count is their product on the packet's own TOC byte and is the only thing the granule position advances by", 38)
+	r.Rule("C33.R6", "last-page bookkeeping: every track field from which markTrackEndOfStream rebuilds the last page is recorded, in writePage's page loop, from fields of the page value that was just written", 4)
 	r.Rule("C33.R4", "header-type flags, tabulated over (requested type, first page, packet complete): first complete page keeps the requested flags, a first incomplete page drops EOS, later pages carry the continuation flag and EOS only when they complete the packet, BOS never appears on a later page; the BOS constant is passed exactly with the OpusHead payload; every Close path of a started writer emits EOS through markTrackEndOfStream / writeNilEndOfStreamPage", 5)
 	r.NotCovered = append(r.NotCovered, "granule position arithmetic (opusPacketSampleCount)", "page sequence numbering across packets and tracks", "packet reassembly from continued pages in the reader")
 	r.Trusted = append(r.Trusted, "RFC 3533 §6 page header, RFC 7845 §5.1/§5.2 OpusHead/OpusTags as transcribed in props/c33.go", "core/eval semantics; guard-dominance argument of core/guards.go")
@@ -48,6 +50,8 @@ func runC33(c *Ctx) {
 		c32Sweep(c, l, "C33.R1", c33R, map[string]bool{"(*OggReader).ParseNextPage": true, "parseBasicHeaderFields": true, "parseExtendedChannelMapping": true,
 			"parseVendorString": true, "parseUserComments": true, "parseSingleUserComment": true, "validateOpusTagsHeader": true, "opusPayloadSignature": true})
 	}
+	c33R5(c)
+	c33R6(c)
 }
 
 // ---------- R1: page header ----------
